@@ -403,14 +403,29 @@ def check_reserve_post(ctx, db, config):
     if config == 'rel-default':
         return
     n = 0
+    SELFP = ('deref', ('param', 1))
+    VLEN = ('load', ('fld', SELFP, 'collections::vec::Vec.len'), 0)
+    VCAP = ('fld', ('fld', SELFP, 'collections::vec::Vec.buf'), 'collections::raw_vec::RawVec.cap')
+    SLEN = ('load', ('fld', ('fld', SELFP, 'collections::string::String.vec'), 'collections::vec::Vec.len'), 0)
+    SCAP = ('fld', ('fld', ('fld', SELFP, 'collections::string::String.vec'), 'collections::vec::Vec.buf'), 'collections::raw_vec::RawVec.cap')
+    PUBLIC = ('reserve', 'reserve_exact', 'try_reserve', 'try_reserve_exact')
     for b in db.fn_bodies():
         m = b['meta']
-        if b['kind'] == 'closure' or not (m.get('impl_adt') or '').endswith('raw_vec::RawVec') or m.get('name') not in ('fallible_reserve_internal', 'infallible_reserve_internal'):
+        adt = m.get('impl_adt') or ''
+        if b['kind'] == 'closure' or m.get('impl_trait'):
+            continue
+        if adt.endswith('raw_vec::RawVec') and m.get('name') in ('fallible_reserve_internal', 'infallible_reserve_internal'):
+            used, extra = ('param', 2), ('param', 3)
+            cap_lv = ('fld', ('deref', ('param', 1)), 'collections::raw_vec::RawVec.cap')
+        elif adt.endswith('vec::Vec') and m.get('name') in PUBLIC:
+            # the public wrappers promise the same: a successful return means len + additional <= capacity()
+            used, extra, cap_lv = VLEN, ('param', 2), VCAP
+        elif adt.endswith('string::String') and m.get('name') in PUBLIC:
+            used, extra, cap_lv = SLEN, ('param', 2), SCAP
+        else:
             continue
         I, r = arena.run_fn(ctx, b['id'], config)
         fn = arena.short(b['id'])
-        used, extra = ('param', 2), ('param', 3)
-        cap_lv = ('fld', ('deref', ('param', 1)), 'collections::raw_vec::RawVec.cap')
         cap0 = ('load', cap_lv, 0)
         MAXU = C((1 << 64) - 1)
         # the returned Result and the capacity field, flattened together over the merge points they share: every way of
@@ -419,10 +434,35 @@ def check_reserve_post(ctx, db, config):
             ctx.violation('R3', fn, 'postcondition', '%s has no analysable return' % fn, b.get('span'))
             continue
         capnow = I.read(r.ret_state.copy(), cap_lv)
+        # variant facts about merged values (`match res { Ok(()) => .., Err(..) => panic }`) rule out the memory alternatives that
+        # come from the other predecessors of the same merge point
+        def phi_path(t, target, path=()):
+            if t == target:
+                return path
+            if isinstance(t, tuple) and t and t[0] == 'phi':
+                for pr, x in t[2]:
+                    got = phi_path(x, target, path + ((t[1][:2], pr),))
+                    if got is not None:
+                        return got
+            return None
+
+        def contradicted(capv, facts):
+            path = phi_path(capnow, capv) or ()
+            for f in facts:
+                if f[0] == 'is' and isinstance(f[1], tuple) and f[1] and f[1][0] == 'phi':
+                    for node, pr in path:
+                        if f[1][1][:2] == node:
+                            for p2, x in f[1][2]:
+                                vs2 = I.variants_in(x) - {''}
+                                if p2 == pr and vs2 and f[2] not in vs2:
+                                    return True
+            return False
         for (rv, capv), facts in arena.joint_alternatives(I, [r.ret, capnow], set(r.ret_state.facts)):
+            if contradicted(capv, facts):
+                continue        # this value of cap comes from a predecessor whose result the path to the return has excluded
             n += 1
             vs = I.variants_in(rv) if rv is not None else {None}
-            errpath = (None not in vs and not (vs & {'Ok'})) or (any(f[0] == 'is' and f[2] in ('Err', 'Break') for f in facts) and not any(f[0] == 'is' and f[2] in ('Ok', 'Continue') for f in facts))
+            errpath = (None not in vs and '' not in vs and bool(vs) and not (vs & {'Ok'})) or (any(f[0] == 'is' and f[2] in ('Err', 'Break') for f in facts) and not any(f[0] == 'is' and f[2] in ('Ok', 'Continue') for f in facts))
             P = prover.Prover(I, facts, use_J=False, extra_axioms={('le', used, cap0)})
             okv = errpath or P.le(app('add', used, extra), capv)
             if not okv:
